@@ -482,10 +482,11 @@ def _run_b(part, ns, program, spec, conts, kinds, argname, args, ref, case, seco
     tcls = _cls_target(ns, spec, args[1])
     if r.err is not None:
         part.outcome('rejected-%s' % r.err)
-        part.classes.add('%s|%s|rejected' % (kinds if len(spec) < 2 else 'multi', argname))
+        part.classes.add('args:%s:rejected' % argname)
         return
     part.outcome('renumbered')
-    part.classes.add('%s|%s|%s' % (kinds, argname if len(spec) < 2 else 'any', tcls))
+    part.classes.add('args:%s:renumbered' % argname)
+    part.classes.add(('stmt:%s:%s' % (kinds, tcls)) if len(spec) < 2 else ('multi:%s' % kinds))
     mapping = plan(program, *args)
     expected, missing = renumber(program, mapping)
     check_messages(r.out, missing, mapping, (), part,
@@ -580,7 +581,7 @@ def run_inprog(part, nsid, spec):
         part.outcome('inprog-rejected-%s' % r.err)
         return
     part.outcome('inprog-renumbered')
-    part.classes.add('inprog|%s|%s' % (kinds, argname))
+    part.classes.add('inprog:%s' % kinds)
     if stripped != _norm(ref['outs'][0]):
         part.violation('inprog/output-before-renum/%s' % kinds,
                        'RUN of [%s] printed %r, the same program with END printed %r' % (text, r.out, ref['outs'][0]),
